@@ -13,6 +13,7 @@ import (
 	"runtime/debug"
 	"strings"
 	"testing"
+	"time"
 
 	"github.com/theparanoids/ysshra/agent/yubiagent"
 	"golang.org/x/crypto/ssh"
@@ -47,17 +48,17 @@ type C13Plan struct {
 	RChunks []int `json:"rchunks,omitempty"`
 	WChunks []int `json:"wchunks,omitempty"`
 	// Slots: "" (stub served agent) or "real" (the concrete server with a stub PIV tool)
-	Slots     string `json:"slots,omitempty"`
-	Remote    bool   `json:"remote,omitempty"`
-	PivOutput string `json:"piv_output,omitempty"`
-	PivExit   int    `json:"piv_exit,omitempty"`
-	BigCert   bool   `json:"big_cert,omitempty"` // the served slot certificate is a large RSA-4096 one
+	Slots     string   `json:"slots,omitempty"`
+	Remote    bool     `json:"remote,omitempty"`
+	PivOutput string   `json:"piv_output,omitempty"`
+	PivExit   int      `json:"piv_exit,omitempty"`
+	BigCert   bool     `json:"big_cert,omitempty"`   // the served slot certificate is a large RSA-4096 one
 	StubSlots []string `json:"stub_slots,omitempty"` // slots the stub served agent reports (nil: 9a, 9c)
-	PEMNoise  bool   `json:"pem_noise,omitempty"` // the PIV tool prints text before the PEM block and blank lines after it
+	PEMNoise  bool     `json:"pem_noise,omitempty"`  // the PIV tool prints text before the PEM block and blank lines after it
 }
 
 var c13Ops = []string{"list", "sign", "add", "remove", "removeall", "lock", "unlock", "signers", "addhardcert", "addhardcert_legacy",
-	"listslots", "readslot", "attestslot", "wait", "forward"}
+	"listslots", "readslot", "attestslot", "wait", "forward", "addsmartcard", "removesmartcard"}
 
 var oddComments = []string{"", "plain", "üñí¢ødé ✓", "with \"quotes\" and \\ backslash", "tab\there", "日本語のコメント", "SUCCESS?", "a,b,c"}
 var failTexts = []string{"scripted failure", "agent: locked", "no such key ünï", "x", "failure with \"quotes\"", "SUCCESSFUL NOT", " leading space"}
@@ -353,6 +354,7 @@ func sessionC13(t *testing.T, raw json.RawMessage) *sim.Outcome {
 			op.Fail = ""
 		}
 		delete(st.failOn, nCalls)
+		st.smartcard = op.Op == "addsmartcard" || op.Op == "removesmartcard"
 		if op.Fail != "" {
 			st.failOn[nCalls] = op.Fail
 		}
@@ -406,6 +408,10 @@ func sessionC13(t *testing.T, raw json.RawMessage) *sim.Outcome {
 			case "forward":
 				rawReq, _ := hex.DecodeString(op.Raw)
 				gotBytes, cerr = cli.Forward(rawReq)
+			case "addsmartcard":
+				cerr = cli.AddSmartcardKey(op.Comment, passBytes(op.Pass), time.Duration(op.Lifetime)*time.Second, op.Confirm)
+			case "removesmartcard":
+				cerr = cli.RemoveSmartcardKey(op.Comment, passBytes(op.Pass))
 			}
 		}()
 		res := "ok"
@@ -452,7 +458,8 @@ func sessionC13(t *testing.T, raw json.RawMessage) *sim.Outcome {
 		newCalls := st.calls[nCalls:]
 		wantOp := map[string]string{"list": "list", "sign": "sign", "add": "add", "remove": "remove", "removeall": "removeall", "lock": "lock",
 			"unlock": "unlock", "signers": "list", "addhardcert": "addhardcert", "addhardcert_legacy": "addhardcert", "listslots": "listslots",
-			"readslot": "readslot", "attestslot": "attestslot", "wait": "wait", "forward": "forward"}[op.Op]
+			"readslot": "readslot", "attestslot": "attestslot", "wait": "wait", "forward": "forward",
+			"addsmartcard": "forward", "removesmartcard": "forward"}[op.Op]
 		if op.Op == "forward" {
 			rawReq, _ := hex.DecodeString(op.Raw)
 			wantOp = opOf(rawReq[0])
@@ -530,6 +537,25 @@ func sessionC13(t *testing.T, raw json.RawMessage) *sim.Outcome {
 			rawReq, _ := hex.DecodeString(op.Raw)
 			if wantOp == "forward" && !bytes.Equal(c.Data, rawReq) {
 				bad("raw request", trunc(c.Data), trunc(rawReq))
+			}
+		case "addsmartcard":
+			// draft-miller-ssh-agent: byte 26 (20 when unconstrained), string reader id, string PIN, then the
+			// constraints: 01 + uint32 seconds for a lifetime, 02 for confirmation
+			want := cat(sshString([]byte(op.Comment)), sshString(passBytes(op.Pass)))
+			if op.Lifetime != 0 {
+				want = cat(want, []byte{1}, u32(op.Lifetime))
+			}
+			if op.Confirm {
+				want = cat(want, []byte{2})
+			}
+			okCode := len(c.Data) > 0 && (c.Data[0] == 26 || (c.Data[0] == 20 && op.Lifetime == 0 && !op.Confirm))
+			if !okCode || !bytes.Equal(c.Data[1:], want) {
+				bad("smartcard add request (reader, PIN, lifetime, confirm)", hex.EncodeToString(trunc(c.Data)), "1a"+hex.EncodeToString(trunc(want)))
+			}
+		case "removesmartcard":
+			want := cat([]byte{21}, sshString([]byte(op.Comment)), sshString(passBytes(op.Pass)))
+			if !bytes.Equal(c.Data, want) {
+				bad("smartcard remove request (reader, PIN)", hex.EncodeToString(trunc(c.Data)), hex.EncodeToString(trunc(want)))
 			}
 		}
 		// ---- the caller received the same result ----
